@@ -133,6 +133,10 @@ def _run(tape, clock):
         t1 = clock.now
         body_time = rec.svc.slept
         run.say('operation: %r saved=%s wall=%.4f slept=%.4f' % (rec.outcome, rec.saved, t1 - t0, body_time))
+        if not rec.saved and rec.svc.disabled_at is not None and rec.svc.calls_begun > rec.svc.disabled_at:
+            # an interception ran while recording was switched off: the recording is not whole and is rightly dropped (C05)
+            run.probe('dropped_interception_after_switch_off')
+            return run
         if not rec.saved:
             run.violate('saved', 'not-saved', 'recording at rate 1 without discard was not saved: %s' % rec.spy.calls)
             return run
